@@ -2,9 +2,11 @@ package main
 
 import (
 	"fmt"
+	"go/constant"
 	"go/token"
 	"go/types"
 	"math/big"
+	"strconv"
 	"strings"
 
 	"golang.org/x/tools/go/ssa"
@@ -952,6 +954,14 @@ func (f *Frame) siteAppendObligs(in *ssa.Call) {
 		if rest := strings.TrimSpace(strings.TrimPrefix(sc.Pattern, "append")); strings.HasPrefix(rest, "to ") {
 			want := strings.TrimSpace(rest[3:])
 			if valuePath(in.Call.Args[0]) != want && valuePath(in.Call.Args[0]) != "phi:"+want {
+				continue
+			}
+		}
+		if rest := strings.TrimSpace(strings.TrimPrefix(sc.Pattern, "append")); strings.HasPrefix(rest, "lit ") {
+			// `append lit "TEXT"`: only the sites that append exactly that string constant
+			want, err := strconv.Unquote(strings.TrimSpace(rest[4:]))
+			k, isConst := in.Call.Args[1].(*ssa.Const)
+			if err != nil || !isConst || k.Value == nil || k.Value.Kind() != constant.String || constant.StringVal(k.Value) != want {
 				continue
 			}
 		}
